@@ -42,3 +42,126 @@ Definition k2_show (a : ast) (derive : string) : string :=
   | EErr e => "ERR " ++ e
   | EPanic w => "PANIC " ++ w
   end.
+
+(* ---------- K1: front end (grammar, walker, indexes) ---------- *)
+From XdrModel Require Import Walk Grammar.
+
+Definition opt_eqb {A} (f : A -> A -> bool) (a b : option A) : bool :=
+  match a, b with Some x, Some y => f x y | None, None => true | _, _ => false end.
+
+Fixpoint list_eqb {A} (f : A -> A -> bool) (a b : list A) : bool :=
+  match a, b with
+  | [], [] => true
+  | x :: r, y :: s => (f x y && list_eqb f r s)%bool
+  | _, _ => false
+  end.
+
+Definition array_size_eqb (a b : array_size) : bool :=
+  match a, b with
+  | Known x, Known y => N.eqb x y
+  | Constant x, Constant y => String.eqb x y
+  | _, _ => false
+  end.
+
+Definition array_type_eqb (a b : array_type) : bool :=
+  match a, b with
+  | ANone x, ANone y => basic_type_eqb x y
+  | AFixed x s, AFixed y t => (basic_type_eqb x y && array_size_eqb s t)%bool
+  | AVar x s, AVar y t => (basic_type_eqb x y && opt_eqb array_size_eqb s t)%bool
+  | _, _ => false
+  end.
+
+Definition union_case_eqb (a b : union_case) : bool :=
+  (list_eqb String.eqb (uc_values a) (uc_values b) && String.eqb (uc_name a) (uc_name b) &&
+   array_type_eqb (uc_value a) (uc_value b))%bool.
+
+Definition ast_type_eqb (a b : ast_type) : bool :=
+  match a, b with
+  | TStruct x, TStruct y =>
+    (String.eqb (st_name x) (st_name y) &&
+     list_eqb (fun f g => (String.eqb (sf_name f) (sf_name g) && array_type_eqb (sf_value f) (sf_value g) &&
+                           Bool.eqb (sf_optional f) (sf_optional g))%bool) (st_fields x) (st_fields y))%bool
+  | TUnion x, TUnion y =>
+    (String.eqb (un_name x) (un_name y) && list_eqb union_case_eqb (un_cases x) (un_cases y) &&
+     opt_eqb union_case_eqb (un_default x) (un_default y) &&
+     list_eqb String.eqb (un_void x) (un_void y) && String.eqb (un_sw_name x) (un_sw_name y) &&
+     basic_type_eqb (un_sw_type x) (un_sw_type y))%bool
+  | TEnum x, TEnum y =>
+    (String.eqb (en_name x) (en_name y) &&
+     list_eqb (fun p q => (String.eqb (fst p) (fst q) &&
+                           match snd p, snd q with
+                           | VNum a, VNum b => Z.eqb a b
+                           | VStr a, VStr b => String.eqb a b
+                           | _, _ => false
+                           end)%bool) (en_variants x) (en_variants y))%bool
+  | TTypedef x, TTypedef y =>
+    (basic_type_eqb (td_target x) (td_target y) && array_type_eqb (td_alias x) (td_alias y))%bool
+  | _, _ => false
+  end.
+
+Definition constant_type_eqb (a b : constant_type) : bool :=
+  match a, b with
+  | ConstValue x, ConstValue y => String.eqb x y
+  | EnumValue e v, EnumValue f w => (String.eqb e f && String.eqb v w)%bool
+  | _, _ => false
+  end.
+
+(* generics are compared as sets *)
+Definition ast_eqb (a b : ast) : bool :=
+  (list_eqb (fun p q => (String.eqb (fst p) (fst q) && constant_type_eqb (snd p) (snd q))%bool)
+            (constants a) (constants b) &&
+   list_eqb (fun p q => (String.eqb (fst p) (fst q) && ast_type_eqb (snd p) (snd q))%bool)
+            (types a) (types b) &&
+   forallb (fun g => mem g (generics b)) (generics a) &&
+   forallb (fun g => mem g (generics a)) (generics b))%bool.
+
+Fixpoint tree_eqb (a b : tree) : bool :=
+  match a, b with
+  | Node r s c, Node r' s' c' =>
+    (String.eqb r r' && String.eqb s s' &&
+     (fix go (x y : list tree) : bool :=
+        match x, y with
+        | [], [] => true
+        | p :: x', q :: y' => (tree_eqb p q && go x' y')%bool
+        | _, _ => false
+        end) c c')%bool
+  end.
+
+Inductive real_ast := RAOk (a : ast) | RAErr | RAPanic (where_ : string).
+
+Definition parse_fuel (text : string) : nat := (80 + 24 * String.length text)%nat.
+
+(* 0 agree; 1 token tree differs; 2 accepted/rejected differs; 3 AST outcome class differs;
+   4 AST differs; 5 panic site differs; 9 out of fuel *)
+Definition k1_one (text : string) (rt : option tree) (ra : real_ast) : N :=
+  match parse xdr_grammar (parse_fuel text) text, rt with
+  | PFuel, _ => 9%N
+  | PFail, None => match ra with RAErr => 0%N | _ => 3%N end
+  | PFail, Some _ => 2%N
+  | POk _ _, None => 2%N
+  | POk [t] _, Some t' =>
+    if tree_eqb t t' then
+      match ast_new t, ra with
+      | EOk a, RAOk a' => if ast_eqb a a' then 0%N else 4%N
+      | EErr _, RAErr => 0%N
+      | EPanic w, RAPanic w' => if String.eqb w w' then 0%N else 5%N
+      | _, _ => 3%N
+      end
+    else 1%N
+  | POk _ _, Some _ => 1%N
+  end.
+
+Definition k1_run (cases : list (N * string * option tree * real_ast)) : list (N * N) :=
+  flat_map (fun c => match c with
+                     | (i, text, rt, ra) => let k := k1_one text rt ra in
+                                            if (k =? 0)%N then [] else [(i, k)]
+                     end) cases.
+
+(* the model's whole pipeline on a text: what generate() returns (for diagnostics and for the
+   totality check C14) *)
+Definition model_ast (text : string) : eres ast :=
+  match parse xdr_grammar (parse_fuel text) text with
+  | POk [t] _ => ast_new t
+  | PFuel => EPanic "FUEL"
+  | _ => EErr "parse"
+  end.
